@@ -35,20 +35,20 @@ Fixpoint set_name (i : nat) (n : str) (l : list attr) : list attr :=
   | a :: r, S k => a :: set_name k n r
   end.
 
-(* collections.group_by on positions, keys in first-occurrence order *)
-Fixpoint insert_group (k : str) (i : nat) (gs : list (str * list nat)) : list (str * list nat) :=
-  match gs with
-  | [] => [(k, [i])]
-  | (k', l) :: r => if str_eqb k k' then (k', l ++ [i]) :: r else (k', l) :: insert_group k i r
+(* collections.group_by on positions: one group per distinct key, in the order of the first
+   occurrence of the key; inside a group the positions in increasing order.  (Written as a
+   specification of the dict-of-lists the Python code builds, which is what it returns.) *)
+Fixpoint dedup (l : list str) (seen : list str) : list str :=
+  match l with
+  | [] => []
+  | k :: r => if str_in k seen then dedup r seen else k :: dedup r (k :: seen)
   end.
 
-Fixpoint group_by_aux (keys : list str) (i : nat) (gs : list (str * list nat)) : list (str * list nat) :=
-  match keys with
-  | [] => gs
-  | k :: r => group_by_aux r (S i) (insert_group k i gs)
-  end.
+Definition positions_of (keys : list str) (k : str) : list nat :=
+  filter (fun i => str_eqb (nth i keys []) k) (seq 0 (List.length keys)).
 
-Definition group_by (keys : list str) : list (list nat) := map snd (group_by_aux keys 0%nat []).
+Definition group_by (keys : list str) : list (list nat) :=
+  map (positions_of keys) (dedup keys []).
 
 (* key=lambda x: x.slug or DEFAULT_ATTR_NAME *)
 Definition attr_key (a : attr) : str := match a_slug a with [] => default_attr_name | s => s end.
@@ -93,7 +93,7 @@ Definition rename_group (l : list attr) (g : list nat) : list attr :=
   match g with
   | [i; j] => if negb (a_is_enumeration (get l i)) then rename_by_preference l i j
               else rename_by_index l [j]
-  | _ :: (_ :: _) as r => rename_by_index l r
+  | _ :: r => rename_by_index l r
   | _ => l
   end.
 
@@ -171,8 +171,8 @@ Fixpoint next_index (fuel : nat) (use_names : bool) (ns name : str) (reserved : 
 Definition add_numeric_suffix (use_names : bool) (st : cstate) (p : nat) : cstate :=
   let '(l, res) := st in
   let reserved := match res with
-                  | Some (_ :: _ as r) => r
-                  | _ => map (c_cmp use_names) l      (* `if not self.reserved:` rebuild *)
+                  | Some [] | None => map (c_cmp use_names) l      (* `if not self.reserved:` rebuild *)
+                  | Some r => r
                   end in
   let c := cget l p in
   match next_index (S (List.length reserved)) use_names (c_ns c) (c_name c) reserved 1 with
